@@ -116,7 +116,7 @@ Section FineRule.
       destruct Hdet as [Hconf Hreads].
       set (fb := forget_replaced hc b ress).
       assert (map fst fb = r_targets r) as Hfst1 by (unfold fb; rewrite C01Hist.forget_replaced_fst; exact Hfst).
-      assert (blob_ok w fb) as Hb1 by (unfold fb; apply InvProofs.forget_replaced_ok; [apply Hinv | exact Hb]).
+      assert (blob_ok w fb) as Hb1 by (unfold fb; apply InvProofs.forget_replaced_ok; [exact teqb_spec | exact Hb]).
       unfold Fine.rule_tail. fold fb. destruct (needs_rebuild ress) eqn:Enr.
       - destruct (run_script w (script_lines (r_command r))) as [codes w2] eqn:Ers.
         cbn [fst snd] in Hv, F2. rewrite Hv.
